@@ -207,8 +207,17 @@ def run(ctx):
         for cn in classnames:
             c = [x for x in ast.walk(t) if isinstance(x, ast.ClassDef) and x.name == cn][0]
             if cn in ('KmipEngine', 'KmipSession'):
-                for s in c.body:
-                    if isinstance(s, ast.Assign) and isinstance(s.value, (ast.List, ast.Dict, ast.Set, ast.Call)):
+                from ..tables import mutated_names
+                raw = ast.parse(src.text(rel))      # as written (constant tables are expanded away in the analysed tree)
+                rc = [x for x in ast.walk(raw) if isinstance(x, ast.ClassDef) and x.name == cn][0]
+                cands = [s for s in rc.body if isinstance(s, ast.Assign) and isinstance(s.value, (ast.List, ast.Dict, ast.Set, ast.Call))
+                         and len(s.targets) == 1 and isinstance(s.targets[0], ast.Name)]
+                changed = mutated_names(raw, {s.targets[0].id for s in cands}, {id(s.targets[0]) for s in cands})
+                for s in cands:
+                    if s.targets[0].id not in changed:
+                        ctx.ok('C10.R3', '%s:%s %s' % (rel, s.lineno, cn), 'class-level container %s is never rebound or modified: a constant table' % s.targets[0].id)
+                        continue
+                    if True:
                         ctx.fail('C10.R3', '%s|class-attr %s' % (cn, U(s.targets[0])), '%s:%s %s' % (rel, s.lineno, cn),
                                  'class-level mutable attribute shared by all instances/threads: %s' % short(s))
     ctx.count('functions_scanned_R3', n_funcs, 85)
